@@ -312,6 +312,8 @@ func genGeom(r *gen.Rng) geom {
 			switch k := r.Intn(10); {
 			case k == 0:
 				return -1
+			case k == 1 && r.Chance(1, 3):
+				return 0
 			case k < 7:
 				return r.Range(1, n)
 			default:
@@ -342,7 +344,9 @@ func genGeom(r *gen.Rng) geom {
 			}
 			g.x2, g.y2, g.w2, g.h2 = off(pw), off(ph), dim(pw), dim(ph)
 		}
-		if w, h := g.size(); w >= 1 && h >= 1 {
+		// windows without area (they arise at a parent's edge) are kept now and then: Draw must
+		// draw nothing and leave the terminal alone (F105h)
+		if w, h := g.size(); (w >= 1 && h >= 1) || r.Chance(1, 4) {
 			return g
 		}
 	}
@@ -372,7 +376,7 @@ func run(r *hx.Run) error {
 		g := genGeom(rng)
 		ww, wh := g.size()
 		w0, h0 := ww, wh
-		if rng.Chance(2, 5) {
+		if rng.Chance(2, 5) || w0 < 1 || h0 < 1 {
 			w0, h0 = rng.Range(1, 10), rng.Range(1, 6)
 		}
 		ops := []string{fmt.Sprintf("new %d %d", w0, h0)}
